@@ -9,6 +9,7 @@ import (
 	"math/big"
 	"os"
 	"os/exec"
+	"strconv"
 	"strings"
 	"time"
 )
@@ -229,6 +230,11 @@ func (s *Solver) Assert(t *Term) {
 
 // Check decides satisfiability of the current assertions plus the
 // given assumptions.
+var slowQ = func() time.Duration {
+	ms, _ := strconv.Atoi(os.Getenv("GOSYM_SLOWQ"))
+	return time.Duration(ms) * time.Millisecond
+}()
+
 func (s *Solver) Check(assumps ...*Term) Result {
 	var lits []string
 	for _, a := range assumps {
@@ -280,6 +286,13 @@ func (s *Solver) Check(assumps ...*Term) Result {
 		s.MaxQ = d
 	}
 	s.Queries++
+	if slowQ > 0 && d > slowQ {
+		var ds []string
+		for _, a := range assumps {
+			ds = append(ds, clip(a.st.inline(a, 6), 600))
+		}
+		fmt.Fprintf(os.Stderr, "SLOWQ %v res=%v: %s\n", d, res, strings.Join(ds, " ; "))
+	}
 	if s.Errors > 0 && res != Unknown {
 		// any error since the last check makes the answer inconclusive
 		res = Unknown
